@@ -26,7 +26,7 @@ def floors(tier):
     k = 1 if tier == "quick" else 8
     return {"patterns": 200 * k, "helper_pairs_present": 200 * k, "roundtrips": 6000 * k, "nonmatch_probes": 4000 * k, "common_roundtrips": 200 * k,
             "form:sep": 30 * k, "form:dstar": 10 * k, "form:singleton": 10 * k, "form:wildcard": 5 * k,
-            "held_below_request_or_reply": 60 * k, "held_two_or_more_hops_down": 30 * k, "held_by_lro_response_type": 20 * k}
+            "held_below_request_or_reply": 60 * k, "held_two_or_more_hops_down": 30 * k, "held_by_lro_response_type": 20 * k, "declared_in_a_dependency_file": 30 * k}
 
 
 def plan(seed, tier):
@@ -153,6 +153,8 @@ def run_case(case):
     for it, r in zip(items, ev["items"]):
         bump("patterns")
         bump("form:" + it["form"])
+        if (it.get("how") or "").startswith("dep_"):
+            bump("declared_in_a_dependency_file")
         hb = it.get("held_by") or "Req"
         if hb != "Req":
             bump("held_below_request_or_reply")
